@@ -116,7 +116,62 @@ def find_cells(model):
         if not module.name.startswith(model.PACKAGE):
             continue
         _scan_function(model, func, cells)
-    return list(cells.values())
+    return list(cells.values()) + _class_cells(model)
+
+
+def _class_cells(model):
+    """Containers assigned in a class body are shared by all instances unless a method rebinds ``self.NAME``."""
+    result = []
+    for cls in model.classes.values():
+        if not cls.module.name.startswith(model.PACKAGE):
+            continue
+        for name, value in cls.class_assigns.items():
+            if not _is_container_expr(value):
+                continue
+            cell = Cell(cls.module, "%s.%s" % (cls.name, name), value)
+            family = [cls] + list(model.subclasses(cls))
+            rebound = False
+            for member in family:
+                for method in member.methods.values():
+                    for node in walk_own(method.node):
+                        for target in (node.targets if isinstance(node, ast.Assign) else []):
+                            if isinstance(target, ast.Attribute) and target.attr == name and isinstance(target.value, ast.Name) \
+                                    and target.value.id == "self":
+                                rebound = True
+            if rebound:
+                continue  # instance attribute of the same name: the class-level value is only a default
+            owners = {"self", "cls", cls.name}
+            for member in family:
+                for method in member.methods.values():
+                    written = set()
+                    for node in walk_own(method.node):
+                        targets = []
+                        if isinstance(node, ast.Assign):
+                            targets = node.targets
+                        elif isinstance(node, ast.AugAssign):
+                            targets = [node.target]
+                        elif isinstance(node, ast.Delete):
+                            targets = node.targets
+                        for target in targets:
+                            base = target
+                            subscripted = False
+                            while isinstance(base, ast.Subscript):
+                                base, subscripted = base.value, True
+                            if isinstance(base, ast.Attribute) and base.attr == name and isinstance(base.value, ast.Name) \
+                                    and base.value.id in owners and (subscripted or isinstance(node, ast.AugAssign) or base.value.id != "self"):
+                                cell.writers.append((method, node, "stores into it"))
+                                written.add(id(base))
+                        if isinstance(node, ast.Call) and isinstance(node.func, ast.Attribute) and node.func.attr in MUTATING_METHODS:
+                            base = node.func.value
+                            if isinstance(base, ast.Attribute) and base.attr == name and isinstance(base.value, ast.Name) and base.value.id in owners:
+                                cell.writers.append((method, node, "calls .%s() on it" % node.func.attr))
+                                written.add(id(base))
+                    for node in walk_own(method.node):
+                        if isinstance(node, ast.Attribute) and node.attr == name and isinstance(node.ctx, ast.Load) and id(node) not in written \
+                                and isinstance(node.value, ast.Name) and node.value.id in owners:
+                            cell.readers.append((method, node))
+            result.append(cell)
+    return result
 
 
 def _visible_aliases(model, func, cells):
